@@ -18,6 +18,7 @@ import PolyVerif.Model.Obj
     c05.holds.roundtrip_empty_mesh_not_last <scene> <result>→ same predicate (known finding class)
     c05.holds.resave <text> <text'>   → `Resaves`: text' (= Write(Read text)) has the faces of text (count, order, positions,
                                         vt/vn where the whole group has them) and the reader accepts text' again
+                                        … and `ResavesCorners` (the statement of theorem obj_resave_corners) holds
     c05.holds.resave_mixed_shapes …   → same predicate; texts with a group that mixes corner shapes
     c05.holds.fs_materials <groups> <groups'> → SameMaterials: obj.Save / SaveAll to disk (with .mtl) then obj.Load gives every
                                         triangle the material record it had (desc = name|Ns|Kd|map_Kd)
@@ -452,7 +453,11 @@ def handle (op : String) (args : List String) : Option String := do
         let reload := match readObj pcStr (lexText b) with
           | .ok _ => true
           | .error _ => false
-        pure (boolStr (Resaves pcStr pcStr (lexText a) (lexText b) && reload))
+        -- the statement of obj_resave_corners (final-pool form) on the implementation's saved text
+        let corners := match readObj pcStr (lexText a) with
+          | .ok (gs, _) => ResavesCorners pcStr pcStr (lexText a) gs (lexText b)
+          | .error _ => false
+        pure (boolStr (Resaves pcStr pcStr (lexText a) (lexText b) && reload && corners))
       | _ => none
   | _ => none
 
